@@ -10,6 +10,8 @@ import Tahoe.BackupDb.Session
          | hlr:<k>:<now>                                            FileResult(k-th cf).did_check_healthy → `ok`
          | dcr:<k>:<dircap>:<now>                                   DirectoryResult(k-th cd).did_create → `ok`
          | dhr:<k>:<now>                                            DirectoryResult(k-th cd).did_check_healthy → `ok`
+         | tf:<path>:<size>:<mtime>:<ctime>:<ign 0|1>:<newcap>:<healthy 0|1>:<now>:<rnd>   one file of a backup run (BackerUpper.upload) → `<uploaded T|F>,<cap used>`
+         | td:<entries>:<newdircap>:<healthy 0|1>:<now>:<rnd>       one directory of a backup run (BackerUpper.upload_directory) → `<created T|F>,<dircap used>`
          | hl:<cap>:<now>                                           did_check_file_healthy → `ok`
          | cd:<entries>:<now>:<rnd>                                 check_directory → `<hashed data>,<dircap|N>,<T|F>,<was_created()|F>`
          | dc:<dircap>:<entries>:<now>                              DirectoryResult(of check_directory(entries)).did_create → `ok`
@@ -94,6 +96,20 @@ def parseOp (s : S) (op : String) : Option (SOp × (S → String)) :=
   | ["dh", d, now] => do pure (.api (.didCheckDirHealthy (← bytesOfHex d) (← now.toInt?)), ok)
   | _ => none
 
+def bit (t : String) : Option Bool := if t == "1" then some true else if t == "0" then some false else none
+
+/-- the run-level steps `toolFileStep` / `toolDirStep` of the session model -/
+def toolOp (s : S) (op : String) : Option (S × String) :=
+  match op.splitOn ":" with
+  | ["tf", p, sz, mt, ct, ign, cap, healthy, now, rnd] => do
+    let (s', up, c) := toolFileStep id s (← bytesOfHex p) ⟨← sz.toInt?, ← mt.toInt?, ← ct.toInt?⟩ (← bit ign)
+      (← bytesOfHex cap) (← bit healthy) (← now.toInt?) (← rnd.toNat?)
+    pure (s', s!"{tf up},{hexOfBytes c}")
+  | ["td", es, d, healthy, now, rnd] => do
+    let (s', cr, c) := toolDirStep id s (← parseEntries es) (← bytesOfHex d) (← bit healthy) (← now.toInt?) (← rnd.toNat?)
+    pure (s', s!"{tf cr},{hexOfBytes c}")
+  | _ => none
+
 def runOps (s : S) (acc : List String) : List String → Option (List String)
   | [] => some acc.reverse
   | "dump" :: rest => runOps s (dump s.db :: acc) rest
@@ -101,7 +117,9 @@ def runOps (s : S) (acc : List String) : List String → Option (List String)
     | some (sop, out) =>
       let s' := sstep id s sop
       runOps s' (out s' :: acc) rest
-    | none => none
+    | none => match toolOp s op with
+      | some (s', out) => runOps s' (out :: acc) rest
+      | none => none
 
 def handle : List String → String
   | "hist" :: ops => match runOps {} [] ops with
